@@ -36,12 +36,16 @@ type Party interface {
 	advance()
 	lock()
 	unlock()
+	noteEarlyMessage()
+	takeEarlyMessages() bool
 }
 
 type BaseParty struct {
 	mtx        sync.Mutex
 	rnd        Round
 	FirstRound Round
+	// set when a message was stored before Start(); Start() then evaluates the stored messages
+	earlyMessages bool
 }
 
 func (p *BaseParty) Running() bool {
@@ -105,6 +109,16 @@ func (p *BaseParty) advance() {
 	p.rnd = p.rnd.NextRound()
 }
 
+func (p *BaseParty) noteEarlyMessage() {
+	p.earlyMessages = true
+}
+
+func (p *BaseParty) takeEarlyMessages() bool {
+	early := p.earlyMessages
+	p.earlyMessages = false
+	return early
+}
+
 func (p *BaseParty) lock() {
 	p.mtx.Lock()
 }
@@ -138,9 +152,30 @@ func BaseStart(p Party, task string, prepare ...func(Round) *Error) *Error {
 	}
 	common.Logger.Infof("party %s: %s round %d starting", p.round().Params().PartyID(), task, 1)
 	defer func() {
-		common.Logger.Debugf("party %s: %s round %d finished", p.round().Params().PartyID(), task, 1)
+		common.Logger.Debugf("party %s: %s round %d finished", p.PartyID(), task, 1)
 	}()
-	return p.round().Start()
+	if err := p.round().Start(); err != nil {
+		return err
+	}
+	if !p.takeEarlyMessages() {
+		return nil
+	}
+	// messages were delivered (and stored) before Start(): nothing else would ever evaluate them if no
+	// further message arrives, so run the same update/advance cycle an incoming message triggers
+	for p.round() != nil {
+		if _, err := p.round().Update(); err != nil {
+			return err
+		}
+		if !p.round().CanProceed() {
+			break
+		}
+		if p.advance(); p.round() != nil {
+			if err := p.round().Start(); err != nil {
+				return err
+			}
+		}
+	}
+	return nil
 }
 
 // an implementation of Update that is shared across the different types of parties (keygen, signing, dynamic groups)
@@ -183,5 +218,6 @@ func BaseUpdate(p Party, msg ParsedMessage, task string) (ok bool, err *Error) {
 		}
 		return r(true, nil)
 	}
+	p.noteEarlyMessage() // stored before Start(); evaluated by BaseStart
 	return r(true, nil)
 }
